@@ -148,6 +148,9 @@ func typeOpts(tok string, n int) [][]sentinel.EntryOption {
 }
 
 func parseRule(s string) *flow.Rule {
+	if s == "nil" { // a nil rule in the list
+		return nil
+	}
 	f := strings.Split(s, ",")
 	if len(f) != 4 && len(f) != 5 {
 		panic("bad rule " + s)
@@ -242,7 +245,12 @@ func (it *Interp) Step(t []string, op string) string {
 		}
 		it.rules = append(it.rules, rules...)
 		it.loaded = true
-		_, err := flow.LoadRules(rules)
+		var err error
+		if n == 0 {
+			err = flow.ClearRules()
+		} else {
+			_, err = flow.LoadRules(rules)
+		}
 		return it.loadResult(err)
 	case "loadres":
 		n := int(vh.U(t[2]))
@@ -254,7 +262,16 @@ func (it *Interp) Step(t []string, op string) string {
 			rules = append(rules, parseRule(s))
 		}
 		it.rules = append(it.rules, rules...)
-		_, err := flow.LoadRulesOfResource(resName(t[1]), rules)
+		res := resName(t[1])
+		if t[1] == "_" { // empty resource name: an error, nothing is looked at
+			res = ""
+		}
+		var err error
+		if n == 0 && res != "" {
+			err = flow.ClearRulesOfResource(res)
+		} else {
+			_, err = flow.LoadRulesOfResource(res, rules)
+		}
 		return it.loadResult(err)
 	case "entry":
 		tok := ""
